@@ -32,13 +32,13 @@ RULE = ("cases: package configurations; executions: one call per (chunk size, wi
         "(configuration, window, chunk) whose window holds at least one wavelength and whose chunk size is smaller than the number of wavelengths in the window or divides it")
 ASSUMPTIONS = ["all SED files of a package share one wavelength grid", "window ends exactly on a tabulated wavelength are ambiguous"]
 REQUIRED_CLASSES = ['chunk-divides-range', 'chunk-does-not-divide-range', 'chunk==1', 'single-wavelength-window', 'empty-window', 'default-window', 'window-end-on-wavelength',
-                    'permuted-parameter-table', 'multi-aperture', 'sed-files-wav-ascending', 'cube-nearest', 'cube-midway', 'cube-outside', 'cube-wavelength-in-other-unit']
+                    'permuted-parameter-table', 'multi-aperture', 'sed-files-wav-ascending', 'seds-in-subdirs-and-gz', 'cube-nearest', 'cube-midway', 'cube-outside', 'cube-wavelength-in-other-unit']
 TIMEOUT = {'quick': 600, 'thorough': 3000}
 
 
 def setup(tier, seed):
     nmax = 5 if tier == 'quick' else 9
-    axes = {'n_ap': [2, 1, 3], 'n_models': [3, 1, 5], 'perm': ['identity', 'reversed', 'rotated'], 'sord': ['wav-desc', 'wav-asc']}
+    axes = {'n_ap': [2, 1, 3], 'n_models': [3, 1, 5], 'perm': ['identity', 'reversed', 'rotated'], 'sord': ['wav-desc', 'wav-asc'], 'layout': ['flat', 'subdir+gz']}
     out = []
     for n_wav in range(2, nmax + 1):
         for c in deviation_bounded(axes, 1 if (tier == 'quick' or n_wav > 6) else 2):
@@ -97,7 +97,8 @@ def run_case(ctx, case, rec, d):
     pkgwriter.write_parameters(md, names, {'par1': np.arange(n_models) + 0.5}, order=perm)
     for m, nm in enumerate(names):
         fl = np.array([[cell(m, a, int(np.argmin(np.abs(w_asc - w)))) for w in wav_file] for a in range(n_ap)])
-        pkgwriter.write_sed_file(md, nm, wav_file, fl, fl / 8.0, apertures_au=ap)
+        lay = case.get('layout', 'flat')
+        pkgwriter.write_sed_file(md, nm, wav_file, fl, fl / 8.0, apertures_au=ap, subdir=(nm[:6] if lay != 'flat' and m % 2 else None), gz=(lay != 'flat' and m != 1))
     table_order = [names[i] for i in perm]
     if perm != sorted(perm):
         rec.cls('permuted-parameter-table')
@@ -105,7 +106,9 @@ def run_case(ctx, case, rec, d):
         rec.cls('multi-aperture')
     if case['sord'] == 'wav-asc':
         rec.cls('sed-files-wav-ascending')
-    cfg = (n_wav, n_ap, n_models, case['perm'], case['sord'])
+    if case.get('layout', 'flat') != 'flat':
+        rec.cls('seds-in-subdirs-and-gz')
+    cfg = (n_wav, n_ap, n_models, case['perm'], case['sord'], case.get('layout', 'flat'))
     positions = _positions(w_asc)
     windows = [(None, None)] + [(positions[i], positions[j]) for i in range(len(positions)) for j in range(i, len(positions))]
     windows = windows[case['wpart'][0]::case['wpart'][1]]
